@@ -46,4 +46,3 @@ pub mod vxb {
         ensures #![trigger s.subrange(0, n), s[i]] s.subrange(0, n)[i] == s[i]
     {}
 }
-broadcast use vxb::vx_subrange_index;
